@@ -170,6 +170,15 @@ def run():
         else:
             good.append((it, x))
     verd = validate(rep, [x for _, x in good])
+    # the binding binds: a recorded run with its last output row removed must be rejected
+    import copy
+    probe = next((x for _, x in good if len(x['out']) >= 1), None)
+    if probe is not None:
+        c1 = copy.deepcopy(probe)
+        c1['out'] = c1['out'][:-1]
+        if validate(rep, [c1])[0]:
+            raise tlc.MachineryError('RowsTrace accepted a recorded output with a row removed: the trace spec does not bind')
+        rep.notes['trace_binding_selftest'] = 'a recorded output with its last row removed is rejected'
     for (it, x), ok in zip(good, verd):
         rep.count(1, traces=1)
         rep.mark_distinct(x)
